@@ -2,7 +2,7 @@
    indices of the cases on which the model and the observed behaviour of the
    real code differ, or on which the specification predicate fails on the
    observed directory trees. *)
-From V Require Import Common.Base C17.WriteSM C17.Spec C17.IOFail.
+From V Require Import Common.Base C17.WriteSM C17.Spec C17.IOFail C17.PathModel.
 
 Fixpoint mism_from {A} (f : A -> bool) (l : list A) (i : nat) : list nat :=
   match l with
@@ -101,3 +101,27 @@ Definition spec_ok (c : hist_case) : bool :=
   let '((w, a, s), links, d0, scs) := c in
   spec_steps (w && negb s) a links d0 [] scs.
 Definition check_spec (l : list (list hist_case)) := mismatches spec_ok (concat l).
+
+(* ---- the path layer ---- *)
+(* fs.RealFS: (a, b, Join(a,b)); (base, target, Rel); (p, Dir, Base, Ext) *)
+Definition join_ok (c : path * path * path) : bool := let '(a, b, r) := c in path_eqb (fs_join a b) r.
+Definition check_join := mismatches join_ok.
+Definition rel_ok (c : path * path * path) : bool := let '(a, b, r) := c in path_eqb (rel a b) r.
+Definition check_rel := mismatches rel_ok.
+Definition dbe_ok (c : path * path * path * path) : bool :=
+  let '(p, d, b, e) := c in path_eqb (fs_dir p) d && path_eqb (fs_base p) b && path_eqb (fs_ext p) e.
+Definition check_dbe := mismatches dbe_ok.
+(* bundler.PathRelativeToOutbase: (outbase, absPath, avoidIndex, custom, relDir, baseName) *)
+Definition prto_ok (c : path * path * bool * path * path * path) : bool :=
+  let '(ob, ab, ai, cu, d, b) := c in
+  let '(d', b') := path_relative_to_outbase ob ab ai cu in path_eqb d' d && path_eqb b' b.
+Definition check_prto := mismatches prto_ok.
+(* validatePathTemplate + SubstituteTemplate twice + TemplateToString:
+   (template text, dir, name, hash, ext, rendered text) *)
+Definition render_ok (c : path * path * path * path * path * path) : bool :=
+  let '(t, d, n, h, e, r) := c in path_eqb (render (parse_template t) d n h e) r.
+Definition check_render := mismatches render_ok.
+(* api.Build: (entry names, outdir, outbase, entry, custom output path, extension, reported output path) *)
+Definition outpath_ok (c : path * path * path * path * path * path * path) : bool :=
+  let '(t, od, ob, en, cu, ex, r) := c in path_eqb (entry_out_path od (entry_template t) ob en cu [] ex) r.
+Definition check_outpath := mismatches outpath_ok.
